@@ -472,12 +472,15 @@ def run(ctx):
         ctx.check(s == (True, True, True), "R11.2", fnkey(b) + "#scaled-value-with-count", loc(b),
                   "record_many does not add scale_up(value) with the `count` parameter (value-scaled, count-passed, scales-the-parameter) = %s" % (s,))
     # ------------------------------------------------------------------ R11.3 sort-and-merge merges on exact equality only
-    sm = [b for b in F.all_bodies(AG) if b.name == "drain" and b.impl and "AggregationStrategy" in (b.impl.get("trait") or "") and
-          any(c.name == "saturating_add" or c.name == "checked_add" for c in b.calls()) and any(c.name in ("sort_by_key", "sort_by", "sort_unstable_by", "sort_unstable_by_key") for c in b.calls())]
+    SORTS = ("sort_by_key", "sort_by", "sort_unstable_by", "sort_unstable_by_key", "sort", "sort_unstable")
+    BUMPS = ("saturating_add", "checked_add", "wrapping_add")
+    sm0 = [b for b in F.all_bodies(AG) if b.name == "drain" and b.impl and "AggregationStrategy" in (b.impl.get("trait") or "") and any(c.name in SORTS for c in b.calls())]
+    # the run merging may be written as a loop of the drain or inside a closure of it (`fold`)
+    sm = [(d, u) for d in sm0 for u in [d] + list(F.closures_of(d)) if any(c.name in BUMPS for c in u.calls())]
     ctx.floor("R11.3", "sort-and-merge drain", len(sm), 1)
-    for b in sm:
+    for d0, b in sm:
         pr = Prov(b)
-        bumps = [c for c in b.calls() if c.name in ("saturating_add", "checked_add", "wrapping_add")]
+        bumps = [c for c in b.calls() if c.name in BUMPS]
         okm = False
         why = "no merge decision found"
         for c in bumps:
@@ -498,7 +501,7 @@ def run(ctx):
                         why = "merge decision is `%s` over %s" % (rv["op"], arith or "values")
                 elif rv.get("k") == "call" and (rv["term"].get("callee") or {}).get("name") in ("eq", "total_cmp", "cmp", "is_eq"):
                     okm = True
-        ctx.check(okm, "R11.3", fnkey(b) + "#merges-on-exact-equality", loc(b),
+        ctx.check(okm, "R11.3", fnkey(d0) + "#merges-on-exact-equality", loc(b),
                   "sort-and-merge groups observations by something else than exact equality (%s): distinct recorded values would be reported as one" % why)
     # ------------------------------------------------------------------ R11.5 shared strategies update shared state with single atomic operations
     shared = [b for b in F.all_bodies(AG) if b.impl and (b.impl.get("trait") or "").endswith("SharedAggregationStrategy") and "::tests::" not in b.path]
